@@ -35,15 +35,35 @@ def impl_call(case):
 
 
 def obs_ranges(case):
-    """Observation.binned_waverange / binned_pixelrange in a wavelength unit"""
+    """Observation.binned_waverange / binned_pixelrange in a wavelength, frequency or wavenumber unit"""
     import astropy.units as u
-    from synphot import SourceSpectrum, SpectralElement, Observation
+    from synphot import SourceSpectrum, SpectralElement, Observation, units
     from synphot.models import ConstFlux1D
     from astropy.modeling.models import Const1D
     unit = u.Unit(case['unit'])
-    bins_aa = np.array([float(unq(x)) for x in case['bins']])
     sp = SourceSpectrum(ConstFlux1D, amplitude=1)
     bp = SpectralElement(Const1D, amplitude=1)
+    lattice = np.array([float(unq(x)) for x in case['bins']])
+    if case['unit'] in RECIPROCAL_UNITS:
+        # the lattice lives in the caller's unit; the observation is binned on the corresponding Angstrom values
+        bins_aa = np.sort((lattice * unit).to(u.AA, u.spectral()).value)
+        obs = Observation(sp, bp, binset=bins_aa)
+        # what binning.wave_range is documented to work on: the bin centres expressed in the unit of cenwave
+        seen = units.validate_quantity(obs.binset, unit, equivalencies=u.spectral()).value
+
+        def g():
+            w = obs.binned_waverange(float(unq(case['cen'])) * unit, case['npix'], mode=case['mode'])
+            if w.unit != unit:
+                raise ValueError('range not in the unit of cenwave')
+            # counted on the same centres the range was computed on (binned_pixelrange always counts in Angstrom,
+            # where the pixels of a frequency grid have other relative sizes: by design not the inverse here)
+            from synphot import binning
+            return {'range': [float(w.value[0]), float(w.value[1])],
+                    'npix': binning.pixel_range(seen, w.value, mode=case['mode'])}
+        out = guarded(g)
+        out['_seen'] = [float(x) for x in seen]
+        return out
+    bins_aa = lattice
     obs = Observation(sp, bp, binset=bins_aa)
     fac = (1 * u.AA).to(unit).value
 
@@ -59,6 +79,9 @@ def obs_ranges(case):
             n = obs.binned_pixelrange(w, mode=case['mode'])
         return {'range': list(wa), 'npix': n}
     return guarded(f)
+
+
+RECIPROCAL_UNITS = ('THz', '1/micron')
 
 
 # ------------------------------------------------------------------ exact reference geometry (oracle side)
@@ -367,7 +390,7 @@ def gen_obs(rng, count):
             if fi - F(npix, 2) < F(-7, 16) or fi + F(npix, 2) > len(b) - F(9, 16):
                 continue
         yield {'op': 'obs_ranges', 'bins': qs(b), 'cen': q(cen), 'npix': npix,
-               'mode': rng.choice(MODES), 'unit': rng.choice(['AA', 'nm', 'micron'])}
+               'mode': rng.choice(MODES), 'unit': rng.choice(['AA', 'nm', 'micron', 'THz', '1/micron'])}
 
 
 # ------------------------------------------------------------------ driver of the check
@@ -387,6 +410,8 @@ def process(rep, cases):
             # wrappers: compare against the plain functions through the model in Angstrom
             mc = {'op': 'wave_range', 'bins': c['bins'], 'cen': c['cen'], 'npix_is_int': True,
                   'npix': c['npix'], 'mode': c['mode']}
+            if '_seen' in o:        # reciprocal unit: the centres as the wrapper's conversion hands them to wave_range
+                mc['bins'] = qs(o['_seen'])
             m = core.run_model([mc])[0]
             if ('err' in m) != ('err' in o) or ('err' in m and m['err'] != o['err']):
                 rep.mismatch(op, 'wrapper outcome %s vs model %s' % (o, m), c, o, m)
@@ -394,6 +419,9 @@ def process(rep, cases):
                 r = same(o['ok']['range'], m['ok'], rtol=1e-9)
                 if r:
                     rep.mismatch(op, r, c, o, m)
+                # the statement's claims on the implementation alone (whatever the model says)
+                if o['ok']['range'][0] > o['ok']['range'][1]:
+                    rep.oracle_fail('obs_ranges:%s:unordered' % c['unit'], 'range %r is not ordered' % (o['ok']['range'],), c, o)
                 elif c['mode'] in ('round', 'none') and abs(o['ok']['npix'] - c['npix']) > 1e-6:
                     rep.oracle_fail('obs_ranges:%s:pixel_count' % c['mode'],
                                     'binned_pixelrange(binned_waverange(npix)) != npix', c, o)
